@@ -298,6 +298,7 @@ def run_seed(seed, tier):
         for cls in classes:
             viols2, R2 = check_faulted(G, item, sh_after, key, cls, stats)
             out['runs'] += 1
+            out['events'] += len(R2.k.log)
             out['trace_digests'].append(R2.k.digest())
             if R2.k.fired:
                 out['shapes'].append(simrun.jhash([item['target'], item['segs'], key, cls]))
